@@ -81,11 +81,32 @@ func returnsErr(body *ast.BlockStmt) bool {
 }
 
 // guard: an if in fd whose condition contains all substrings (whitespace-free) and whose body returns an error.
+// The guard must not itself be conditional on the presence of an annotation (nested under a test of `def`): the refusal
+// has to hold for annotated and un-annotated fields alike.
 func (c *Ctx) guard(s *obSink, pkg, fn, key string, must []string, what, consequence string) {
 	fd, _ := c.funcDecl(pkg, fn)
 	if fd == nil {
 		s.bad(key, "-", "function "+fn+" not found")
 		return
+	}
+	pm := parentMap(fd)
+	underDef := func(n ast.Node) string {
+		child := n
+		for cur := pm[n]; cur != nil; child, cur = cur, pm[cur] {
+			is, ok := cur.(*ast.IfStmt)
+			if !ok {
+				continue
+			}
+			// n lies in the body or the else chain of `is`: both are conditional on is.Cond
+			if child == ast.Node(is.Cond) || child == ast.Node(is.Init) {
+				continue
+			}
+			cs := nows(types.ExprString(is.Cond))
+			if strings.Contains(cs, `def!=""`) || strings.Contains(cs, `def==""`) {
+				return types.ExprString(is.Cond)
+			}
+		}
+		return ""
 	}
 	for _, i := range ifsIn(fd) {
 		ok := true
@@ -95,6 +116,12 @@ func (c *Ctx) guard(s *obSink, pkg, fn, key string, must []string, what, consequ
 			}
 		}
 		if ok && returnsErr(i.st.Body) {
+			if pkg == pkgDefs && len(must) > 0 && !strings.Contains(nows(must[0]), "def") {
+				if u := underDef(i.st); u != "" {
+					s.bad(key, c.Pos(i.st.Pos()), "the guard for "+what+" is only evaluated under `"+u+"`: fields without a type annotation bypass it: "+consequence)
+					return
+				}
+			}
 			s.ok(key, c.Pos(i.st.Pos()), what+": `"+types.ExprString(i.st.Cond)+"` returns an error")
 			return
 		}
@@ -370,6 +397,26 @@ func ruleRefusals(c *Ctx) []Ob {
 	c.guard(s, pkgReflect, "Decode", "decode:not-struct", []string{"rv.Elem().Kind()!=reflect.Struct"}, "DecodeObject pointer to a non-struct", "")
 	c.guard(s, pkgReflect, "createStructDesc", "create:invalid", []string{"!rv.IsValid()"}, "nil interface argument", "EncodeObject(buf, nil, nil) would panic inside reflect")
 	c.guard(s, pkgReflect, "createStructDesc", "create:not-struct", []string{"rt.Kind()!=reflect.Struct"}, "argument that is neither a struct nor a pointer to one", "")
+	// the argument checks of createStructDesc come before its first cache lookup (a lookup keyed by the element type of a
+	// ** pointer would otherwise hit the entry of *T)
+	if fd, _ := c.funcDecl(pkgReflect, "createStructDesc"); fd != nil {
+		firstGet, lastGuard := token.NoPos, token.NoPos
+		ast.Inspect(fd, func(n ast.Node) bool {
+			switch x := n.(type) {
+			case *ast.CallExpr:
+				f := nows(types.ExprString(x.Fun))
+				if (f == "sds.Get" || f == "sds.Set" || f == "newStructDescAndPrefetch") && (!firstGet.IsValid() || x.Pos() < firstGet) {
+					firstGet = x.Pos()
+				}
+			case *ast.IfStmt:
+				if strings.Contains(nows(types.ExprString(x.Cond)), "Kind()!=reflect.Struct") && returnsErr(x.Body) && x.Pos() > lastGuard {
+					lastGuard = x.Pos()
+				}
+			}
+			return true
+		})
+		s.check(firstGet.IsValid() && lastGuard.IsValid() && lastGuard < firstGet, "create:guard-before-lookup", c.Pos(fd.Pos()), "kind checks precede the descriptor lookup", "createStructDesc consults or fills the descriptor cache before it has established that the argument is a struct or a pointer to one: a **T argument can be served the descriptor registered for *T")
+	}
 	c.guard(s, pkgReflect, "newStructDesc", "newdesc:not-struct", []string{"t.Kind()!=reflect.Struct"}, "descriptor of a non-struct", "")
 	// Append returns the error before producing bytes; EncodedSize panics with it
 	if fn := c.SSA[pkgReflect].Func("Append"); fn != nil {
